@@ -47,9 +47,9 @@ def _case(draw, gs):
 
 def strategy(tier):
     return st.one_of(
-        _case(gen.admgs(1, 6)),
+        _case(gen.with_aux_names(gen.admgs(1, 6))),
         _case(gen.admgs(3, 6, bi_densities=(2, 4), di_densities=(1, 2, 3))),
-        _case(gen.embedded_admgs(2)),
+        _case(gen.with_aux_names(gen.embedded_admgs(2))),
         _case(gen.embedded_admgs(1, motifs=gen.SEP_MOTIFS)),
     )
 
